@@ -37,6 +37,7 @@ CONSTANTS MaxL,            \* local best is chosen in 0..MaxL
           MaxFaults,       \* bound on faulty responses + timeouts
           MaxStops,        \* bound on external stop requests
           MaxExpire,       \* max number of running tasks that expire in one checkTaskTimeout call
+          IgnoredStarts,   \* TRUE: explore SyncStart messages arriving while a session runs (ignored; a no-op)
           LateRace         \* TRUE: a GetHashByNoRsp may be handled after the finder gave up (timeout)
                            \*       but before its SyncStop was handled by the actor
 
@@ -278,7 +279,7 @@ SyncStart(t) ==
 
 \* handleSyncStart while a session is running: ignored
 SyncStartIgnored ==
-  /\ running /\ ~blocked
+  /\ IgnoredStarts /\ running /\ ~blocked
   /\ UNCHANGED <<ch, rstored, seq, running, target, phase, fd, anc, f, reqs, selfq, stale, notif, outcomeOK, faults, stops, blocked>>
   /\ lastAct' = [name |-> "SyncStartIgnored"]
 
